@@ -6,7 +6,9 @@
 let nat (a : int) (b : int) = compare a b
 let big = 1 lsl 61      (* stands for math.MaxInt: only the sign of a comparison is ever used *)
 
-let cmp_of s : int -> int -> int =
+let rec cmp_of s : int -> int -> int =
+  (* q<base>: the harness's comparator also reads its tree (round 5); as a comparison it is <base> *)
+  if String.length s > 1 && s.[0] = 'q' then cmp_of (String.sub s 1 (String.length s - 1)) else
   let modk () =
     let k = int_of_string (String.sub s 1 (String.length s - 1)) in
     let k = if k <= 0 then 1 else k in
